@@ -23,10 +23,11 @@ only ever looks at the address `a`, the specification only at the object id `o`.
 -/
 namespace SteelVerif.C04
 
-abbrev Addr := Nat
-abbrev Oid := Nat
-abbrev Kind := Nat
-abbrev Field := Nat
+-- plain `Nat`s (notations rather than abbreviations, so that `omega` sees through them)
+scoped notation "Addr" => Nat     -- identity of a slot (address of its `Arc`)
+scoped notation "Oid" => Nat      -- identity of an object in the abstract store
+scoped notation "Kind" => Nat     -- value kind (index into the generated kind table)
+scoped notation "Field" => Nat    -- field of a kind (index into the specification's field list of the kind)
 
 /-- Values: leaves, handles to mutable storage, immutable containers (kind + children tagged by field). -/
 inductive Val where
@@ -139,7 +140,7 @@ def Heap.read (h : Heap) (a : Addr) : Option Val := (readCell h.cells a).map (·
 
 /-- `HeapRef::set`. -/
 def Heap.write (h : Heap) (a : Addr) (v : Val) : Heap :=
-  { h with cells := h.cells.map fun c => if c.addr == a then { c with value := v } else c }
+  { h with cells := h.cells.map fun c => if c.addr = a then { c with value := v } else c }
 
 def heldInCells (cs : List Cell) (a : Addr) : Bool := cs.any fun c => c.value.occurs a
 
@@ -154,7 +155,7 @@ def Heap.weakCollect (ext : Addr → Bool) (h : Heap) : Heap :=
 def markAll (cs : List Cell) : List Cell := cs.map fun c => { c with reachable := false }
 
 def markCell (cs : List Cell) (a : Addr) : List Cell :=
-  cs.map fun c => if c.addr == a then { c with reachable := true } else c
+  cs.map fun c => if c.addr = a then { c with reachable := true } else c
 
 def workSize (w : List Val) : Nat := (w.map Val.size).sum
 
@@ -177,30 +178,45 @@ theorem workSize_kids (E : Edges) (k : Kind) (fs : List (Field × Val)) :
   simp only [kids, Val.size]
   omega
 
+theorem freeCount_cons (c : Cell) (cs : List Cell) :
+    freeCount (c :: cs) = (if c.reachable then 0 else 1) + freeCount cs := by
+  unfold freeCount
+  cases h : c.reachable <;> simp [h] <;> omega
+
+theorem markCell_cons (c : Cell) (cs : List Cell) (a : Addr) :
+    markCell (c :: cs) a = (if c.addr = a then { c with reachable := true } else c) :: markCell cs a := by
+  simp [markCell]
+
+theorem freeCount_markCell_le (cs : List Cell) (a : Addr) : freeCount (markCell cs a) ≤ freeCount cs := by
+  induction cs with
+  | nil => simp [freeCount, markCell]
+  | cons e rest ih =>
+    rw [markCell_cons, freeCount_cons, freeCount_cons]
+    by_cases he : e.addr = a
+    · rw [if_pos he]; cases e.reachable <;> simp <;> omega
+    · rw [if_neg he]; omega
+
 theorem freeCount_markCell_lt (cs : List Cell) (a : Addr) (c : Cell)
     (hc : readCell cs a = some c) (hr : c.reachable = false) :
     freeCount (markCell cs a) < freeCount cs := by
   induction cs with
   | nil => simp [readCell] at hc
   | cons d rest ih =>
+    rw [markCell_cons, freeCount_cons, freeCount_cons]
+    have hle := freeCount_markCell_le rest a
     simp only [readCell, List.find?_cons] at hc
-    by_cases hd : d.addr == a
-    · simp only [hd] at hc
+    by_cases hd : d.addr = a
+    · have hb : (d.addr == a) = true := by simp [hd]
+      rw [hb] at hc
       cases hc
-      have hle : freeCount (markCell rest a) ≤ freeCount rest := by
-        clear ih
-        induction rest with
-        | nil => simp [freeCount, markCell]
-        | cons e rest ih2 =>
-          simp only [freeCount, markCell, List.map_cons, List.filter_cons] at ih2 ⊢
-          by_cases he : e.addr == a <;> cases her : e.reachable <;> simp [he, her] <;> omega
-      simp only [freeCount, markCell, List.map_cons, List.filter_cons, hd, hr] at hle ⊢
+      rw [if_pos hd, hr]
       simp
       omega
-    · simp only [hd] at hc
+    · have hb : (d.addr == a) = false := by simp [hd]
+      rw [hb] at hc
       have := ih hc
-      simp only [freeCount, markCell, List.map_cons, List.filter_cons, hd] at this ⊢
-      cases d.reachable <;> simp <;> omega
+      rw [if_neg hd]
+      omega
 
 /-- The marker's worklist (`BreadthFirstSearchSteelVal*Visitor::visit` with the `visit_*`/`push_back` of
 `MarkAndSweepContext*`).  Returns the cells and the number of slots it marked (`MarkAndSweepStats`).  Every
